@@ -436,4 +436,21 @@ theorem rQuotArr_model (p0 : List ℕ) (rest : List (List ℕ)) (γ z : ℕ) (pk
 
 end QuotModel
 
+/-- the claimed values of a successful `batchOpenSinglePoint` of the hand model are the evaluations -/
+theorem batchOpen_ok_vals (r γ : ℕ) (polys : List (List ℕ)) (n z : ℕ) (pk : List ℕ) (H : ℕ) (vals : List ℕ)
+    (h : batchOpenSinglePoint r γ polys n z pk = .ok (H, vals)) : vals = polys.map (fun p => KZG.eval r p z) := by
+  unfold batchOpenSinglePoint at h
+  split at h
+  · cases h
+  · split at h
+    · cases h
+    · split at h
+      · cases h
+      · simp only [] at h
+        split at h
+        · cases h
+        · injection h with h
+          injection h with _ h2
+          exact h2.symm
+
 end GV.KzgOpenGen
